@@ -13,6 +13,12 @@ slot tables (incl. reference counts and the free-list head) are read through the
 the operation lines to the model and compares line by line.
 
     run(prop, tier, seed) -> dict         (contract: docstring of lib/vstatic.py)
+                                          prop = C14: everything;  C20: the same stream, problems that involve a second
+                                          arena / foreign handles;  C01: the same stream, only the SURVIVAL monitors (a
+                                          value reachable only through a stashed handle destructed / freed / condemned
+                                          while the handle exists; fetch returning a destructed object) — the
+                                          DynamicRootSet clause of C01; model / implementation differences and the
+                                          identity / acceptance / leak monitors are C14's and are ignored there
     replay(prop, path)    -> dict         same, for the script lines of a replay file
 
 A problem is
@@ -322,10 +328,29 @@ def nontrivial(c):
     return c.ended and s.get("stash", 0) >= 2 and s.get("reuse", 0) >= 1 and s.get("coll", 0) >= 1
 
 
+def survival_monitor(m):
+    """The monitors that say: a value kept alive only by a stashed handle was destructed / freed / condemned while the
+    handle exists (the DynamicRootSet clause of C01) — as opposed to identity, acceptance, leak and table monitors (C14)."""
+    k = monitor_kind(m)
+    if k in ("premature-destruct", "upgrade-refused", "upgrade-of-destructed", "double-free", "double-destruct"):
+        return True
+    if k == "fetch-identity":
+        return "destructed" in m or "upgradable: false" in m
+    return False
+
+
+def _agg_for(prop):
+    return Agg(only=survival_monitor) if prop == "C01" else Agg()
+
+
 class Agg:
     """Running totals over all cases; only the failing cases (and a few samples) are kept whole."""
 
-    def __init__(self):
+    def __init__(self, only=None):
+        # `only`: predicate on a monitor text; when given, only cases whose monitor satisfies it count as problems
+        # (other monitors and model / implementation differences belong to another property and are ignored)
+        self.only = only
+        self.ignored = 0
         self.cases = 0
         self.n_ops = 0
         self.n_mon = 0
@@ -350,6 +375,10 @@ class Agg:
             self.coll += c.stats.get("coll", 0)
             if nontrivial(c):
                 self.distinct.add(hashlib.sha1("\n".join(c.script).encode()).digest()[:12])
+            if self.only is not None and not (c.monitors and self.only(c.monitors[0])):
+                if c.monitors or first_diff(c, m) is not None or not c.ended:
+                    self.ignored += 1
+                continue
             if c.monitors:
                 self.n_mon += 1
                 sig = "monitor|" + monitor_kind(c.monitors[0])
@@ -457,7 +486,10 @@ def analyse(prop, tier, seed, hexe, mexe, agg, crashes, timings, do_shrink=True)
     directed = sum(n for v, n in agg.cells.items()
                    if v.startswith("stash-weak|mark") and "|set=B|target=w|first=1|stashed" in v)
     summary = {f"dynroots_{prop}": dict(
-        tier=tier, seed=seed, repo=REPO, cases=n_cases, model_ops_compared=agg.n_ops, monitor_cases=agg.n_mon,
+        tier=tier, seed=seed, repo=REPO, cases=n_cases,
+        monitors_counted=("survival subset (premature-destruct, fetch of a destructed / condemned object, upgrade-refused, "
+                          "double free / destruct)" if agg.only is not None else "all"),
+        cases_with_problems_of_other_properties_ignored=agg.ignored, model_ops_compared=agg.n_ops, monitor_cases=agg.n_mon,
         disagreeing_cases=agg.n_diff, harness_crashes=len(crashes), nontrivial_distinct=len(agg.distinct),
         stashes=agg.stash, slot_reuses=agg.reuse, collections_with_live_handles=agg.coll,
         coverage_opkind_setstate_phase=table,
@@ -507,16 +539,18 @@ def run(prop, tier, seed):
         if "summary" in res and "dynroots_C14" in res["summary"]:
             res["summary"] = {"dynroots_C20": res["summary"]["dynroots_C14"]}
         return res
-    if prop != "C14":
+    if prop not in ("C14", "C01"):
         return dict(problems=[dict(name="dynroots-bad-prop", text=f"eng_dynroots does not handle {prop}", failing_input=False, header=[], lines=[])])
     problems, hexe, mexe, timings = _build(prop)
     if problems:
         return dict(problems=problems, evaluations=0, distinct_nontrivial=0, disagreements_checked=0, rule=RULE,
                     summary={f"dynroots_{prop}": dict(timings_s=timings, built=False, repo=REPO)})
-    budget = float(os.environ.get("GCV_DYNROOTS_BUDGET", "150" if tier == "thorough" else "10"))
+    # C01 uses this engine for one clause only (./check C01 also runs the collector harness): a shorter default run
+    default_budget = ("60" if tier == "thorough" else "6") if prop == "C01" else ("150" if tier == "thorough" else "10")
+    budget = float(os.environ.get("GCV_DYNROOTS_BUDGET", default_budget))
     chunk = CHUNK_THOROUGH if tier == "thorough" else CHUNK_QUICK
     t0 = time.time()
-    agg, crashes = Agg(), []
+    agg, crashes = _agg_for(prop), []
     th = tm = 0.0
     k = 0
     while True:
@@ -568,7 +602,7 @@ def replay(prop, path):
     lines = [l.strip() for l in open(path) if l.strip() and not l.lstrip().startswith("#")]
     c = run_replay(hexe, lines, tag="replay")
     ok, model, err = ask_model(mexe, [c], tag="replay")
-    agg = Agg()
+    agg = _agg_for(prop)
     agg.add([c], model if ok else [[]])
     res = analyse(prop, "replay", 0, hexe, mexe, agg, [], timings, do_shrink=False)
     res["trace"] = [dict(op=o, impl=a, model=(model[0][i] if ok and i < len(model[0]) else None))
